@@ -22,6 +22,13 @@ mod platform;
 pub mod fsyncer;
 pub mod page_pool;
 
+// verification hook: the portable back end (`unix.rs`, not compiled on Linux otherwise) as a second
+// module, so that its `execute` loop can be run on Linux too.
+#[cfg(all(nomt_verif, target_os = "linux"))]
+#[path = "unix.rs"]
+#[allow(dead_code)]
+pub mod verif_unix;
+
 pub const PAGE_SIZE: usize = 4096;
 
 pub use page_pool::{FatPage, PagePool};
@@ -370,6 +377,315 @@ pub mod verif_scripted {
                 result,
             });
             true
+        }
+    }
+}
+
+/// Verification hook (compiled only with `--cfg nomt_verif`): the I/O pool driven command by command.
+/// `ScriptedWorker` = the REAL `platform::run_worker` on a thread of its own over a scripted kernel
+/// (see `linux.rs::verif`), with handles made like `IoPool::make_handle` /
+/// `IoHandle::make_new_sibiling_handle` make them; `RealPool` = `start_io_pool` on real files;
+/// `unix_execute` = the real `unix.rs::execute`; `FsyncerSim` = the real `Fsyncer` on a real file.
+/// Nothing here is used by the store itself.
+#[cfg(all(nomt_verif, target_os = "linux"))]
+pub mod verif_pool {
+    pub use super::platform::verif::{
+        Resume, WorkerEvent, PUSHES, REAL_MAX_IN_FLIGHT, REAL_RING_CAPACITY,
+    };
+    pub use super::verif_unix::verif_libc::Call;
+    use super::{
+        fsyncer::Fsyncer, platform, CompleteIo, IoCommand, IoHandle, IoKind, IoPacket, IoPool,
+        PagePool, MAX_IO_ATTEMPTS, PAGE_SIZE,
+    };
+    use crossbeam_channel::{Receiver, Sender};
+    use std::sync::Arc;
+    use std::time::Duration;
+
+    pub const VERIF_MAX_IO_ATTEMPTS: usize = MAX_IO_ATTEMPTS;
+
+    /// `std::io::Result<()>` of a completion, comparable.
+    #[derive(Debug, Clone, PartialEq, Eq)]
+    pub enum IoRes {
+        Ok,
+        /// `Err` carrying a raw OS error
+        Os(i32),
+        /// `Err(short_io_error())`
+        Short,
+        Other(String),
+    }
+
+    pub fn io_res(r: &std::io::Result<()>) -> IoRes {
+        match r {
+            Ok(()) => IoRes::Ok,
+            Err(e) => match e.raw_os_error() {
+                Some(n) => IoRes::Os(n),
+                None if e.kind() == std::io::ErrorKind::WriteZero => IoRes::Short,
+                None => IoRes::Other(e.to_string()),
+            },
+        }
+    }
+
+    /// A completion as a handle received it: `user_data`, what the command was, its result and
+    /// the first 8 bytes of its buffer (`None` for `WriteArc` / `WriteRaw`).
+    #[derive(Debug, Clone, PartialEq, Eq)]
+    pub struct Done {
+        pub user_data: u64,
+        pub kind: u8,
+        pub fd: i32,
+        pub pn: u64,
+        pub result: IoRes,
+        pub head: Option<[u8; 8]>,
+    }
+
+    fn done(c: CompleteIo) -> Done {
+        let result = io_res(&c.result);
+        let user_data = c.command.user_data;
+        let (kind, fd, pn, head) = match &c.command.kind {
+            IoKind::Read(fd, pn, p) => (0, *fd, *pn, Some(p[..8].try_into().unwrap())),
+            IoKind::Write(fd, pn, p) => (1, *fd, *pn, Some(p[..8].try_into().unwrap())),
+            IoKind::WriteArc(fd, pn, _) => (2, *fd, *pn, None),
+            IoKind::WriteRaw(fd, pn, _) => (3, *fd, *pn, None),
+        };
+        Done {
+            user_data,
+            kind,
+            fd,
+            pn,
+            result,
+            head,
+        }
+    }
+
+    /// kind: 0 `Read`, 1 `Write`, 2 `WriteArc`, 3 `WriteRaw` (the raw page is leaked: its owner is
+    /// the caller in the real code); the page is filled with `fill`.
+    fn command(pool: &PagePool, kind: u8, fd: i32, pn: u64, user_data: u64, fill: u8) -> IoCommand {
+        let mut page = pool.alloc_fat_page();
+        page[..].fill(fill);
+        page[..8].copy_from_slice(&user_data.to_le_bytes());
+        let kind = match kind {
+            0 => IoKind::Read(fd, pn, page),
+            1 => IoKind::Write(fd, pn, page),
+            2 => IoKind::WriteArc(fd, pn, Arc::new(page)),
+            _ => {
+                let raw = page.page();
+                std::mem::forget(page);
+                IoKind::WriteRaw(fd, pn, raw)
+            }
+        };
+        IoCommand { kind, user_data }
+    }
+
+    fn drain(h: &IoHandle) -> Vec<Done> {
+        let mut v = Vec::new();
+        while let Ok(c) = h.try_recv() {
+            v.push(done(c));
+        }
+        v
+    }
+
+    pub struct ScriptedWorker {
+        page_pool: PagePool,
+        // the only strong reference, like `IoPool::sender`
+        sender: Option<Arc<Sender<IoPacket>>>,
+        handles: Vec<IoHandle>,
+        events: Receiver<WorkerEvent>,
+        resume: Sender<Resume>,
+        thread: Option<std::thread::JoinHandle<()>>,
+    }
+
+    impl ScriptedWorker {
+        pub fn start(sq_capacity: usize) -> Self {
+            let page_pool = PagePool::new();
+            let (command_tx, command_rx) = crossbeam_channel::unbounded();
+            let (events_tx, events) = crossbeam_channel::unbounded();
+            let (resume, resume_rx) = crossbeam_channel::unbounded();
+            let script = platform::verif::Script {
+                events: events_tx,
+                resume: resume_rx,
+                sq_capacity,
+            };
+            let thread = std::thread::Builder::new()
+                .name("verif-io-worker".into())
+                .spawn({
+                    let page_pool = page_pool.clone();
+                    move || platform::verif::run_scripted_worker(page_pool, command_rx, script)
+                })
+                .unwrap();
+            ScriptedWorker {
+                page_pool,
+                sender: Some(Arc::new(command_tx)),
+                handles: Vec::new(),
+                events,
+                resume,
+                thread: Some(thread),
+            }
+        }
+
+        /// A new handle: `IoPool::make_handle` (`from == None`; `None` result after `close`, where
+        /// the real one panics) or `make_new_sibiling_handle` / `clone` of handle `from`.
+        pub fn new_handle(&mut self, from: Option<(usize, bool)>) -> Option<usize> {
+            let h = match from {
+                None => {
+                    let (completion_sender, completion_receiver) = crossbeam_channel::unbounded();
+                    IoHandle {
+                        sender: Arc::downgrade(self.sender.as_ref()?),
+                        completion_sender,
+                        completion_receiver,
+                    }
+                }
+                Some((i, true)) => self.handles[i].make_new_sibiling_handle(),
+                Some((i, false)) => self.handles[i].clone(),
+            };
+            self.handles.push(h);
+            Some(self.handles.len() - 1)
+        }
+
+        /// `IoHandle::send`; `false`: `Err(SendError)`.
+        pub fn send(&self, handle: usize, kind: u8, fd: i32, pn: u64, user_data: u64) -> bool {
+            let c = command(&self.page_pool, kind, fd, pn, user_data, 0x5a);
+            self.handles[handle].send(c).is_ok()
+        }
+
+        /// `IoPool::shutdown` without the join: the only strong sender is dropped.
+        pub fn close(&mut self) {
+            self.sender.take();
+        }
+
+        pub fn event(&self, timeout_ms: u64) -> Option<WorkerEvent> {
+            self.events.recv_timeout(Duration::from_millis(timeout_ms)).ok()
+        }
+
+        pub fn resume(&self, r: Resume) {
+            let _ = self.resume.send(r);
+        }
+
+        /// Everything handle `handle` has received and not yet handed out (`try_recv` until empty).
+        pub fn drain(&self, handle: usize) -> Vec<Done> {
+            drain(&self.handles[handle])
+        }
+
+        pub fn join(mut self) -> bool {
+            self.thread.take().map_or(true, |t| t.join().is_ok())
+        }
+    }
+
+    /// The real pool (`start_io_pool`) with one handle.
+    pub struct RealPool {
+        pool: IoPool,
+        handle: IoHandle,
+    }
+
+    impl RealPool {
+        pub fn start(io_workers: usize) -> Self {
+            let pool = super::start_io_pool(io_workers, PagePool::new());
+            let handle = pool.make_handle();
+            RealPool { pool, handle }
+        }
+        pub fn sibling(&self) -> RealPool2 {
+            RealPool2 {
+                handle: self.handle.make_new_sibiling_handle(),
+            }
+        }
+        pub fn send(&self, kind: u8, fd: i32, pn: u64, user_data: u64, fill: u8) -> bool {
+            self.handle
+                .send(command(self.pool.page_pool(), kind, fd, pn, user_data, fill))
+                .is_ok()
+        }
+        /// `IoHandle::recv` with a time limit (`None`: nothing arrived in time).
+        pub fn recv(&self, timeout_ms: u64) -> Option<Done> {
+            self.handle
+                .receiver()
+                .recv_timeout(Duration::from_millis(timeout_ms))
+                .ok()
+                .map(done)
+        }
+        pub fn try_recv(&self) -> Option<Done> {
+            self.handle.try_recv().ok().map(done)
+        }
+        pub fn shutdown(&mut self) {
+            self.pool.shutdown()
+        }
+        /// The real `bitbox::writeout::write_ht` on this pool's handle: page `pn` filled with
+        /// `fill`. Returns its result.
+        pub fn write_ht(&self, file: &std::fs::File, pages: &[(u64, u8)]) -> IoRes {
+            let ht = pages
+                .iter()
+                .map(|(pn, fill)| {
+                    let mut page = self.pool.page_pool().alloc_fat_page();
+                    page[..].fill(*fill);
+                    (*pn, Arc::new(page))
+                })
+                .collect();
+            io_res(&crate::bitbox::writeout::verif_write_ht(
+                self.handle.clone(),
+                file,
+                ht,
+            ))
+        }
+    }
+
+    pub struct RealPool2 {
+        handle: IoHandle,
+    }
+    impl RealPool2 {
+        pub fn try_recv(&self) -> Option<Done> {
+            self.handle.try_recv().ok().map(done)
+        }
+    }
+
+    /// The real `unix.rs::execute` on one command (`script`: answers to its first syscalls).
+    pub fn unix_execute(
+        kind: u8,
+        fd: i32,
+        pn: u64,
+        user_data: u64,
+        fill: u8,
+        script: Option<Vec<(isize, i32)>>,
+    ) -> (Done, Vec<Call>) {
+        let pool = PagePool::new();
+        let c = command(&pool, kind, fd, pn, user_data, fill);
+        let (complete, calls) = super::verif_unix::verif_libc::run_execute(c, script);
+        (done(complete), calls)
+    }
+
+    /// `IoKind::get_result` with `errno` set to `errno` just before: 0 `Ok`, 1 `Err`, 2 `Retry`.
+    pub fn get_result(read: bool, res: isize, errno: i32) -> u8 {
+        let pool = PagePool::new();
+        let c = command(&pool, if read { 0 } else { 1 }, -1, 0, 0, 0);
+        unsafe { *libc::__errno_location() = errno };
+        match c.kind.get_result(res) {
+            super::IoKindResult::Ok => 0,
+            super::IoKindResult::Err => 1,
+            super::IoKindResult::Retry => 2,
+        }
+    }
+
+    pub const VERIF_PAGE_SIZE: usize = PAGE_SIZE;
+
+    /// The real `Fsyncer` on `file`.
+    pub struct FsyncerSim {
+        f: Arc<Fsyncer>,
+    }
+    impl FsyncerSim {
+        pub fn new(file: std::fs::File) -> Self {
+            FsyncerSim {
+                f: Arc::new(Fsyncer::new("verif", Arc::new(file))),
+            }
+        }
+        /// `Fsyncer::fsync`; `false`: it panicked.
+        pub fn fsync(&self) -> bool {
+            std::panic::catch_unwind(std::panic::AssertUnwindSafe(|| self.f.fsync())).is_ok()
+        }
+        /// `Fsyncer::wait` on a thread of its own; `None`: still blocked after `timeout_ms`
+        /// (the thread stays blocked until a later `fsync` completes and takes that result).
+        pub fn wait(&self, timeout_ms: u64) -> Option<IoRes> {
+            let (tx, rx) = crossbeam_channel::bounded(1);
+            let f = self.f.clone();
+            std::thread::spawn(move || {
+                let r = f.wait();
+                let _ = tx.send(io_res(&r));
+            });
+            rx.recv_timeout(Duration::from_millis(timeout_ms)).ok()
         }
     }
 }
